@@ -282,18 +282,19 @@ def closure(ctx, P, cname):
         k = 0
         for m in view.methods():
             cls, fn = view.resolve(m)
-            for x in ast.walk(fn):
-                if isinstance(x, ast.Call) and call_name(x) == "DataRecord":
-                    for kw in x.keywords:
-                        if kw.arg in ("arrival_date", "waiting_time", "service_start_date", "service_time", "service_end_date", "time_blocked", "exit_date"):
+            if m not in rules.ANCHOR_METHODS:
+                continue            # forwarding helpers are typed through their callers
+            for x, fields in rules.record_constructions(P, view, fn):
+                    for karg, kvalue in fields.items():
+                        if karg in ("arrival_date", "waiting_time", "service_start_date", "service_time", "service_end_date", "time_blocked", "exit_date"):
                             k += 1
-                            if isinstance(kw.value, ast.Name) and kw.value.id == "nan":
+                            if isinstance(kvalue, ast.Name) and kvalue.id == "nan":
                                 continue
-                            t = T.ty(kw.value, fn)
-                            ob2.ok("%s.%s:%s" % (cls.name, m, kw.arg), "%s.%s: %s=%s : %s" % (cls.name, m, kw.arg, unparse(kw.value)[:50], "|".join(sorted(t))))
+                            t = T.ty(kvalue, fn)
+                            ob2.ok("%s.%s:%s" % (cls.name, m, karg), "%s.%s: %s=%s : %s" % (cls.name, m, karg, unparse(kvalue)[:50], "|".join(sorted(t))))
                             if FLT in t:
-                                ctx.violation(ob2, "R11.record-type", "%s.%s" % (cls.name, m), "%s=%s" % (kw.arg, unparse(kw.value)[:80]), "record-field-may-be-float",
-                                              "in exact mode the record field %s is built from `%s`, which may be a binary float (use self.now / increment_time)" % (kw.arg, unparse(kw.value)[:60]), loc(kw.value))
+                                ctx.violation(ob2, "R11.record-type", "%s.%s" % (cls.name, m), "%s=%s" % (karg, unparse(kvalue)[:80]), "record-field-may-be-float",
+                                              "in exact mode the record field %s is built from `%s`, which may be a binary float (use self.now / increment_time)" % (karg, unparse(kvalue)[:60]), loc(x))
         ctx.floor("record date fields typed", k, 20)
 
 
